@@ -270,6 +270,11 @@ def canon(n, env=None, depth=0, subst=True):
         return ('new*', n.get('alloc_t')) + tuple(rec(x) for x in c)
     if k == 'ArraySubscriptExpr':
         return ('[]',) + tuple(rec(x) for x in c)
+    if k in ('CXXDependentScopeMemberExpr', 'UnresolvedMemberExpr'):
+        # member of a value of dependent type (generic lambda parameter): name only, unresolved
+        return ('.', rec(c[0]) if c else 'this', n.get('dep_member'))
+    if k == 'UnresolvedLookupExpr':
+        return ('fn?', n.get('dep_name'))
     if k == 'LambdaExpr':
         return ('lambda',) + tuple(rec(x) for x in c)
     if k == 'DeclStmt':
